@@ -1251,7 +1251,19 @@ where
             kawa.detached.status_line,
             StatusLine::Response { code, .. } if (100..200).contains(&code)
         );
-    if !end_stream && !interim && kawa.body_size == BodySize::Empty {
+    // A response that cannot have content (to HEAD: `on_headers`, which knows
+    // the request method, has declared it Terminated; 204; 304) and whose
+    // END_STREAM comes on a later, empty DATA frame is not given a chunked
+    // framing either: an HTTP/1.1 client takes the message as ended after the
+    // header section (RFC 9112 §6.3) and would read the last-chunk as the start
+    // of the next response; Transfer-Encoding is forbidden on a 204 (§6.1).
+    let no_content = matches!(kawa.kind, Kind::Response)
+        && (kawa.parsing_phase == ParsingPhase::Terminated
+            || matches!(
+                kawa.detached.status_line,
+                StatusLine::Response { code, .. } if code == 204 || code == 304
+            ));
+    if !end_stream && !interim && !no_content && kawa.body_size == BodySize::Empty {
         kawa.body_size = BodySize::Chunked;
         kawa.push_block(Block::Header(Pair {
             key: Store::Static(b"Transfer-Encoding"),
@@ -1266,16 +1278,12 @@ where
         end_stream,
     }));
 
-    if kawa.parsing_phase == ParsingPhase::Terminated {
-        return Ok(());
-    }
-
     // A stream that still expects a body (`!end_stream`) must have had its
     // framing resolved to a concrete length or chunked encoding above — the
     // `BodySize::Empty` upgrade-to-chunked branch guarantees we never enter the
     // phase mapping with an unframed body when more bytes are coming.
     debug_assert!(
-        end_stream || interim || kawa.body_size != BodySize::Empty,
+        end_stream || interim || no_content || kawa.body_size != BodySize::Empty,
         "a continuing stream must have a resolved body framing before phasing"
     );
     // The message ends exactly where the peer said so: with this header block
@@ -1292,6 +1300,8 @@ where
     //   (304), was left in Chunks / Body: the HTTP/1.1 frontend waits for a
     //   terminated response before it reads its client again, so a keep-alive
     //   connection was never read again.
+    // - a response to HEAD that `on_headers` declared Terminated, on a header
+    //   block without END_STREAM, hit the same early retirement.
     // An interim response is terminated as a message although the stream goes on.
     kawa.parsing_phase = if end_stream || interim {
         ParsingPhase::Terminated
